@@ -28,7 +28,8 @@ def gen_C14(tier, rng):
             yield dict(kind="interleave", a=a, b=b, L=40, sched=sorted(int(v) for v in rng.choice(80, size=40, replace=False)))
     N = 60 if tier == "quick" else 600
     for i in range(N):
-        yield dict(kind=str(rng.choice(["nested", "readonly", "iprint", "twice", "before"])), spec=_spec(rng, SMOOTH + ("bad",), nmax=6),
+        yield dict(kind=str(rng.choice(["nested", "readonly", "iprint", "twice", "before", "iprint_upd", "iprint_upd"])), spec=_spec(rng, SMOOTH + ("bad",), nmax=6),
+                   adv=dict(adv_at=int(rng.integers(1, 6)), adv_mask=int(rng.integers(1, 255)), adv_drop=False),
                    cfg=gen.random_config(rng), iprint=int(rng.choice([-1, 0, 1, 50, 99, 100, 101])), s=float(10 ** rng.uniform(-2, 2)))
 
 
@@ -160,6 +161,31 @@ def eval_C14(case):
             fail = f"restarting twice from the same checkpoint object gives different results: {same_result(r1, r2)}"
         elif same_result(ck, snap):
             fail = f"checkpoint object modified by the restart: {same_result(ck, snap)}"
+    elif kind == "iprint_upd":
+        # the same with an update function that rewrites the stored gradients (pairs then fail the curvature test and are
+        # filtered): logging options must not decide what is filtered
+        from harness.corr import driver as CD
+        desc = dict(spec=case["spec"], cfg=dict(cfg, maxiter=max(8, cfg.get("maxiter", 8))), opts=dict(upd="adversarial", ft="none", gt="float", cb="none", **case.get("adv", {})))
+        lg = logging.getLogger("verif-c14u")
+        lg.handlers[:] = [logging.StreamHandler(io.StringIO())]
+        lg.setLevel(logging.INFO)
+        lg.propagate = False
+        outs = []
+        for logger, ipr in ((None, -1), (lg, -1), (lg, case["iprint"]), (None, case["iprint"])):
+            _, kw = CD.make_kw(desc)
+            kw.update(iprint=ipr, logger=logger)
+            try:
+                outs.append(("ok", minimize_lbfgsb(**kw)))
+            except Exception as e:  # noqa
+                outs.append(("raise", f"{type(e).__name__}: {e}"))
+        base = outs[0][1] if outs[0][0] == "ok" else base
+        for (k_, o_), lab in zip(outs[1:], ("logger set, iprint -1", f"logger set, iprint {case['iprint']}", f"no logger, iprint {case['iprint']}")):
+            if k_ != outs[0][0]:
+                fail = f"with an update function: {lab}: run {'raised ' + str(o_) if k_ == 'raise' else 'returned'} while the run without logger {'raised ' + str(outs[0][1]) if outs[0][0] == 'raise' else 'returned'}"
+                break
+            if k_ == "ok" and same_result(o_, outs[0][1]):
+                fail = f"with an update function: {lab} changes the numerical output: {same_result(o_, outs[0][1])}"
+                break
     elif kind == "iprint":
         lg = logging.getLogger("verif-c14")
         lg.handlers[:] = [logging.StreamHandler(io.StringIO())]
@@ -185,7 +211,29 @@ def gen_C16(tier, rng):
         mode = FD[int(rng.integers(0, 4))]
         fams = ("qp", "qp4", "bench") if mode == "cs" else ("qp", "qp4", "qpsp", "bench")
         yield dict(spec=_spec(rng, fams, nmax=6, box=str(rng.choice(["tight", "finite", "mixed"])), start=str(rng.choice(["face", "vertex", "interior"]))),
-                   mode=mode, eps=float(rng.choice([1e-8, 1e-6])), rel=(None if rng.random() < 0.6 else 1e-7), maxcor=int(rng.integers(1, 8)))
+                   mode=mode, eps=float(rng.choice([1e-8, 1e-6])), rel=(None if rng.random() < 0.6 else 1e-7), maxcor=int(rng.integers(1, 8)),
+                   shift=bool(rng.random() < 0.3))
+
+
+def _shifted(P, pseed):
+    """The same problem in coordinates of large magnitude (x = z + shift, |shift| ~ 1e4..1e5 on some coordinates) with narrow,
+    non-degenerate intervals there: the relative size of an interval says nothing about whether a variable is fixed."""
+    rng = np.random.default_rng([int(pseed) & 0x7fffffff, 1616])
+    sh = rng.choice([0.0, 101325.0, -20000.0], size=P.n)
+    P2 = copy.copy(P)
+    f0, g0 = P.f, P.g
+    lb, ub = P.lb.copy(), P.ub.copy()
+    big = sh != 0
+    # narrow the shifted coordinates to a width in (0.05, 0.8) around the start, keeping lb < ub
+    w = 0.05 + 0.75 * rng.random(P.n)
+    x0 = np.clip(P.x0, np.where(np.isfinite(lb), lb, -1e3), np.where(np.isfinite(ub), ub, 1e3))
+    lo = np.where(big, x0 - w * rng.random(P.n), lb)
+    hi = np.where(big, lo + w, ub)
+    P2.lb, P2.ub = lo + sh, hi + sh
+    P2.x0 = np.clip(x0, lo, hi) + sh
+    P2.f = lambda x: f0(np.asarray(x) - sh)
+    P2.g = lambda x: g0(np.asarray(x) - sh)
+    return P2
 
 
 def eval_C16(case):
@@ -193,6 +241,8 @@ def eval_C16(case):
     from lbfgsb.base import projgr
 
     P = gen.make_problem(case["spec"])
+    if case.get("shift") and case["mode"] != "cs":
+        P = _shifted(P, case["spec"]["pseed"])
     if P.spec.get("bench") is None and case["spec"]["family"] == "bench" and not P.convex:
         pass
     mode = case["mode"]
@@ -215,6 +265,17 @@ def eval_C16(case):
     if fail is None and r.nfev != len(pts):
         fail = f"jac={mode!r}: nfev {r.nfev} != {len(pts)} objective evaluations made (stencil points included)"
     active_end = bool(((r.x == P.lb) | (r.x == P.ub)).any())
+    if fail is None and mode != "cs":
+        # a variable that is NOT fixed (lb < ub) cannot have a finite-difference derivative that is exactly 0 where the true
+        # derivative is sizeable (its two stencil values would have to be equal bit for bit)
+        ge = np.asarray(P.g(r.x), float)
+        gj = np.asarray(r.jac, float)
+        hh = (case["eps"] if mode is None else (case["rel"] or (EPS ** 0.5 if mode == "2-point" else EPS ** (1 / 3)))) * (np.maximum(1.0, np.abs(r.x)) if mode is not None else 1.0)
+        big = (P.lb < P.ub) & (gj == 0.0) & (np.abs(ge) > 1e-3 * (1.0 + float(np.max(np.abs(ge))))) & (np.abs(ge) * hh > 1e-9 * (1.0 + abs(float(r.fun))))
+        if big.any():
+            i = int(np.argmax(big))
+            fail = (f"jac={mode!r}: the finite-difference derivative of variable {i} (bounds [{P.lb[i]!r}, {P.ub[i]!r}], not fixed) is exactly 0 "
+                    f"while the exact derivative there is {ge[i]:.3e}")
     if fail is None and P.convex:
         e = _solve(P, **kw)
         # step actually used by the scheme
